@@ -261,7 +261,8 @@ theorem inv_step_sh (s : S) (op : Op) (h : Shares.Inv s.sh) : Shares.Inv (step s
     · exact inv_remove s.sh p h
     · exact h
   | setMode p m => simp only [step]; split <;> exact h
-  | cycle => simp only [step]; split <;> exact h
+  | cycle => simp only [step]; repeat' split
+             all_goals exact h
   | poll => simp only [step]; split <;> exact h
   | reload es disk =>
     simp only [step]
@@ -461,20 +462,122 @@ theorem sticky_updFirst (p : Xfer → Bool) (f : Xfer → Xfer) (xs : List Xfer)
     · rw [h2, hf]
     · exact absurd rfl (hf x h1)
 
+/-! ## state locks -/
+
+theorem flightOf_map (fs : List Flight) (g : Flight → Flight) (hg : ∀ f, (g f).k = f.k) (k : Nat) :
+    flightOf (fs.map g) k = (flightOf fs k).map g := by
+  induction fs with
+  | nil => rfl
+  | cons f l ih =>
+    simp only [flightOf, List.map_cons, List.find?_cons, hg] at ih ⊢
+    split
+    · rfl
+    · exact ih
+
+theorem isLocked_map (fs : List Flight) (g : Flight → Flight) (hg : ∀ f, (g f).k = f.k) (k : Nat) :
+    isLocked (fs.map g) k = isLocked fs k := by
+  simp [isLocked, flightOf_map fs g hg]
+
+theorem isLocked_addWaiter (fs : List Flight) (k' : Nat) (c : Call) (k : Nat) :
+    isLocked (addWaiter fs k' c) k = isLocked fs k :=
+  isLocked_map fs _ (fun f => by split <;> rfl) k
+
+theorem isLocked_reconcileL (c : Cfg) (sh : Shares.St Comp) (fs : List Flight) (xs : List Xfer) (k : Nat) :
+    isLocked (reconcileL c sh fs xs).2 k = isLocked fs k :=
+  isLocked_map fs _ (fun f => by
+    split
+    · split <;> rfl
+    · rfl) k
+
+theorem isLocked_append (fs : List Flight) (f : Flight) (k : Nat) :
+    isLocked (fs ++ [f]) k = (isLocked fs k || decide (f.k = k)) := by
+  simp only [isLocked, flightOf, List.find?_append, List.find?_cons, List.find?_nil]
+  cases hf : fs.find? (fun f => decide (f.k = k)) with
+  | some g => simp
+  | none =>
+    by_cases hk : f.k = k <;> simp [hk]
+
+theorem isLocked_filter (fs : List Flight) (k k' : Nat) (h : isLocked fs k = false) :
+    isLocked (fs.filter (fun g => g.k ≠ k')) k = false := by
+  simp only [isLocked, flightOf, Option.isSome_eq_false_iff, Option.isNone_iff_eq_none, List.find?_eq_none] at h ⊢
+  intro g hg
+  exact h g (List.mem_filter.1 hg).1
+
+theorem getElem?_reconcileFrom (c : Cfg) (sh : Shares.St Comp) (fs : List Flight) (xs : List Xfer) (i j : Nat) :
+    (reconcileFrom c sh fs i xs)[j]? = (xs[j]?).map (fun x => (cycleOne c sh fs (i + j) x).1) := by
+  induction xs generalizing i j with
+  | nil => simp [reconcileFrom]
+  | cons x l ih =>
+    cases j with
+    | zero => simp [reconcileFrom]
+    | succ j =>
+      simp only [reconcileFrom, List.getElem?_cons_succ]
+      rw [ih]
+      have : i + 1 + j = i + (j + 1) := by omega
+      rw [this]
+
+theorem length_reconcileFrom (c : Cfg) (sh : Shares.St Comp) (fs : List Flight) (xs : List Xfer) (i : Nat) :
+    (reconcileFrom c sh fs i xs).length = xs.length := by
+  induction xs generalizing i with
+  | nil => rfl
+  | cons x l ih => simp [reconcileFrom, ih]
+
+/-- an upload whose lock is free is reconciled by the cycle as if there were no locks at all -/
+theorem cycleOne_free (c : Cfg) (sh : Shares.St Comp) (fs : List Flight) (k : Nat) (x : Xfer)
+    (h : isLocked fs k = false) : (cycleOne c sh fs k x).1 = reconcile1 c sh x := by
+  simp [cycleOne, h, reconcile1, reconcileX, reconcileSR]
+
+/-- with no lock held `manage_shares_changed` is the plain map over the uploads -/
+theorem reconcileL_free (c : Cfg) (sh : Shares.St Comp) (xs : List Xfer) :
+    reconcileL c sh [] xs = (reconcile c sh xs, []) := by
+  simp only [reconcileL, List.map_nil, Prod.mk.injEq, and_true]
+  apply List.ext_getElem?
+  intro j
+  rw [getElem?_reconcileFrom]
+  simp only [reconcile, List.getElem?_map]
+  cases xs[j]? with
+  | none => rfl
+  | some x => simp [cycleOne_free c sh [] _ x rfl]
+
 theorem sticky_step (s : S) (op : Op) (k : Nat) (x : Xfer) (hk : s.xs[k]? = some x)
-    (ha : x.state = .aborted) (hr : x.reason = some .requested) (hop : Op.requeues k op = false) :
-    (step s op).1.xs[k]? = some x := by
+    (ha : x.state = .aborted) (hr : x.reason = some .requested) (hfree : isLocked s.flights k = false)
+    (hop : Op.requeues k op = false) :
+    (step s op).1.xs[k]? = some x ∧ isLocked (step s op).1.flights k = false := by
   have hfail : (applyMeth .fail none x).1 = x := by rw [applyMeth_aborted .fail (by decide) none x ha]
+  have hlt : k < s.xs.length := (List.getElem?_eq_some_iff.1 hk).1
+  -- a call on upload `k'` that is not a re-queue of `k`
+  have hcall : ∀ (k' : Nat) (c : Call), (k' = k → c.m ≠ .queue) →
+      (callOn s.xs s.flights k' c).1.1[k]? = some x ∧ isLocked (callOn s.xs s.flights k' c).1.2 k = false := by
+    intro k' c hc
+    simp only [callOn]
+    split
+    · exact ⟨hk, by rw [isLocked_addWaiter]; exact hfree⟩
+    · refine ⟨?_, hfree⟩
+      simp only [modifyAt]
+      split
+      · exact hk
+      · rename_i y hy
+        by_cases hkk : k' = k
+        · subst hkk
+          rw [hk] at hy
+          cases hy
+          rw [applyMeth_aborted c.m (hc rfl) _ x ha]
+          simp [hlt]
+        · simp only [List.getElem?_set]
+          simp [hkk, hk]
   cases op with
   | queueReq u p =>
-    simp only [step, onQueue]
+    refine ⟨?_, hfree⟩
+    simp only [step, guarded]
+    split
+    · exact hk
+    simp only [onQueue]
     split
     · exact hk
     · split
       · split
         · exact hk
-        · rw [List.getElem?_append_left (by
-            have := List.getElem?_eq_some_iff.1 hk; exact this.1)]
+        · rw [List.getElem?_append_left hlt]
           exact hk
       · rename_i y hfind
         split
@@ -493,14 +596,17 @@ theorem sticky_step (s : S) (op : Op) (k : Nat) (x : Xfer) (hk : s.xs[k]? = some
               decide
             · exact hk
   | xferReq u p =>
-    simp only [step, onRequest]
+    refine ⟨?_, hfree⟩
+    simp only [step, guarded]
+    split
+    · exact hk
+    simp only [onRequest]
     split
     · exact hk
     · split
       · split
         · exact hk
-        · rw [List.getElem?_append_left (by
-            have := List.getElem?_eq_some_iff.1 hk; exact this.1)]
+        · rw [List.getElem?_append_left hlt]
           exact hk
       · split
         · exact sticky_updFirst _ _ _ _ _ hk (Or.inl hfail)
@@ -508,7 +614,11 @@ theorem sticky_step (s : S) (op : Op) (k : Nat) (x : Xfer) (hk : s.xs[k]? = some
   | cycle =>
     simp only [step]
     split
-    · simp only [reconcile, List.getElem?_map, hk, Option.map_some, Option.some.injEq]
+    · exact ⟨hk, hfree⟩
+    split
+    · refine ⟨?_, by rw [isLocked_reconcileL]; exact hfree⟩
+      simp only [reconcileL, getElem?_reconcileFrom, hk, Option.map_some, Option.some.injEq, Nat.zero_add]
+      rw [cycleOne_free _ _ _ _ _ hfree]
       cases x with
       | mk u p st r =>
         simp only at ha hr
@@ -518,52 +628,316 @@ theorem sticky_step (s : S) (op : Op) (k : Nat) (x : Xfer) (hk : s.xs[k]? = some
           (fileNotShared s.cfg s.sh ⟨u, p, .aborted, some .requested⟩) .aborted (some .requested)
           (by decide) (by decide) (by decide)).1 rfl rfl
         rw [this]
-    · exact hk
+    · exact ⟨hk, hfree⟩
   | meth k' m =>
-    simp only [step, modifyAt]
-    split
-    · exact hk
-    · rename_i y hy
-      by_cases hkk : k' = k
-      · subst hkk
-        rw [hk] at hy
-        cases hy
-        have hm : m ≠ .queue := by
-          intro hm
-          simp [Op.requeues, hm] at hop
-        rw [applyMeth_aborted m hm none x ha]
-        have hlt : k' < s.xs.length := (List.getElem?_eq_some_iff.1 hk).1
-        simp [hlt]
-      · simp only [List.getElem?_set]
-        simp [hkk, hk]
-  | userAbort k' =>
-    simp only [step, modifyAt]
-    split
-    · exact hk
-    · rename_i y hy
-      by_cases hkk : k' = k
-      · subst hkk
-        rw [hk] at hy
-        cases hy
-        rw [applyMeth_aborted .abort (by decide) _ x ha]
-        have hlt : k' < s.xs.length := (List.getElem?_eq_some_iff.1 hk).1
-        simp [hlt]
-      · simp only [List.getElem?_set]
-        simp [hkk, hk]
+    exact hcall k' { m := m } (fun hkk hm => by
+      simp only [Op.requeues, hkk, decide_true, Bool.true_and, decide_eq_false_iff_not] at hop
+      exact hop hm)
+  | userAbort k' => exact hcall k' { m := .abort, r := some .requested } (fun _ => by decide)
   | userQueue k' =>
-    simp only [step, modifyAt]
+    exact hcall k' { m := .queue } (fun hkk => by simp [Op.requeues, hkk] at hop)
+  | beginCall k' c ph =>
+    have hc : k' = k → c.m ≠ .queue := fun hkk hm => by simp [Op.requeues, hkk, hm] at hop
+    simp only [step, beginOn]
     split
-    · exact hk
-    · by_cases hkk : k' = k
-      · simp [Op.requeues, hkk] at hop
+    · exact hcall k' c hc
+    · split
+      · exact ⟨hk, hfree⟩
+      · rename_i y hy
+        by_cases hkk : k' = k
+        · subst hkk
+          rw [hk] at hy
+          cases hy
+          have hnone : Generated.Transfer.implStep .upload x.state c.m = none := by
+            rw [ha]
+            have := hc rfl
+            cases hm : c.m <;> first | exact absurd hm this | rfl
+          simp only [hnone]
+          exact ⟨hk, hfree⟩
+        · have hset : ∀ z, (s.xs.set k' z)[k]? = some x := by
+            intro z
+            simp only [List.getElem?_set]
+            simp [hkk, hk]
+          have happ : ∀ f : Flight, f.k = k' → isLocked (s.flights ++ [f]) k = false := by
+            intro f hf
+            rw [isLocked_append, hfree, hf]
+            simp [hkk]
+          split
+          · exact ⟨hk, hfree⟩
+          · split
+            · split
+              · exact ⟨hset _, happ _ rfl⟩
+              · exact ⟨hset _, hfree⟩
+            · exact ⟨hset _, happ _ rfl⟩
+  | endCall k' =>
+    simp only [step, endOn]
+    split
+    · rename_i f y hf hy
+      by_cases hkk : k' = k
+      · subst hkk
+        simp [isLocked, hf] at hfree
+      · refine ⟨?_, isLocked_filter _ _ _ hfree⟩
+        simp only [List.getElem?_set]
+        simp [hkk, hk]
+    · exact ⟨hk, hfree⟩
+  | share d disk => simp only [step]; split <;> exact ⟨hk, hfree⟩
+  | unshare p => simp only [step]; split <;> exact ⟨hk, hfree⟩
+  | setMode p m => simp only [step]; split <;> exact ⟨hk, hfree⟩
+  | poll => simp only [step]; split <;> exact ⟨hk, hfree⟩
+  | reload es disk => simp only [step]; split <;> exact ⟨hk, hfree⟩
+  | _ => exact ⟨hk, hfree⟩
+
+/-! ## calls that run behind a state lock -/
+
+theorem runCalls_cons (c : Call) (cs : List Call) (sr : St × Option Reason) :
+    runCalls (c :: cs) sr = runCalls cs (runCall c sr) := rfl
+
+theorem runCalls_append (cs ds : List Call) (sr : St × Option Reason) :
+    runCalls (cs ++ ds) sr = runCalls ds (runCalls cs sr) := by
+  simp [runCalls, List.foldl_append]
+
+/-- an abort that gets its turn leaves the upload ABORTED for its reason — or is refused, because
+the upload is not live (any more) -/
+theorem abort_lands (r : Option Reason) (j : Bool) (sr : St × Option Reason) :
+    runCall { m := .abort, r := r, job := j } sr = (.aborted, r) ∨
+    (runCall { m := .abort, r := r, job := j } sr = sr ∧
+      (sr.1 = .virgin ∨ sr.1 = .complete ∨ sr.1 = .failed ∨ sr.1 = .aborted)) := by
+  obtain ⟨st, a⟩ := sr
+  cases st <;> simp [runCall, methSR, Generated.Transfer.implStep, effReason]
+
+/-- one call: ABORTED afterwards means ABORTED before and untouched, or the call is an abort that
+left its reason -/
+theorem runCall_aborted (c : Call) (sr : St × Option Reason) (h : (runCall c sr).1 = .aborted) :
+    (sr.1 = .aborted ∧ runCall c sr = sr) ∨ (c.m = .abort ∧ (runCall c sr).2 = c.r) := by
+  obtain ⟨m, r, j⟩ := c
+  obtain ⟨st, a⟩ := sr
+  cases m <;> cases st <;> simp [runCall, methSR, Generated.Transfer.implStep, effReason] at h ⊢
+
+theorem runCalls_aborted (all cs : List Call) (hsub : ∀ c ∈ cs, c ∈ all) (sr : St × Option Reason)
+    (h0 : sr.1 = .aborted → ∃ c ∈ all, c.m = .abort ∧ sr.2 = c.r)
+    (h : (runCalls cs sr).1 = .aborted) : ∃ c ∈ all, c.m = .abort ∧ (runCalls cs sr).2 = c.r := by
+  induction cs generalizing sr with
+  | nil => exact h0 h
+  | cons c cs ih =>
+    rw [runCalls_cons] at h ⊢
+    apply ih (fun d hd => hsub d (by simp [hd])) (runCall c sr) _ h
+    intro ha
+    rcases runCall_aborted c sr ha with ⟨h1, h2⟩ | ⟨h1, h2⟩
+    · rw [h2]; exact h0 h1
+    · exact ⟨c, hsub c (by simp), h1, h2⟩
+
+theorem runCall_not_virgin (c : Call) (sr : St × Option Reason) (h : sr.1 ≠ .virgin) :
+    (runCall c sr).1 ≠ .virgin := by
+  obtain ⟨m, r, j⟩ := c
+  obtain ⟨st, a⟩ := sr
+  cases m <;> cases st <;> simp [runCall, methSR, Generated.Transfer.implStep] at h ⊢
+
+theorem runCalls_not_virgin (cs : List Call) (sr : St × Option Reason) (h : sr.1 ≠ .virgin) :
+    (runCalls cs sr).1 ≠ .virgin := by
+  induction cs generalizing sr with
+  | nil => exact h
+  | cons c cs ih => rw [runCalls_cons]; exact ih _ (runCall_not_virgin c sr h)
+
+/-- in COMPLETE, FAILED and ABORTED every method but `queue` is refused -/
+theorem runCall_refused (c : Call) (sr : St × Option Reason)
+    (hst : sr.1 = .complete ∨ sr.1 = .failed ∨ sr.1 = .aborted) (hc : c.m ≠ .queue) : runCall c sr = sr := by
+  obtain ⟨m, r, j⟩ := c
+  obtain ⟨st, a⟩ := sr
+  simp only at hst hc
+  rcases hst with rfl | rfl | rfl <;> cases m <;>
+    first | exact absurd rfl hc | simp [runCall, methSR, Generated.Transfer.implStep]
+
+theorem runCalls_refused (cs : List Call) (sr : St × Option Reason)
+    (hst : sr.1 = .complete ∨ sr.1 = .failed ∨ sr.1 = .aborted) (hc : ∀ c ∈ cs, c.m ≠ .queue) :
+    runCalls cs sr = sr := by
+  induction cs with
+  | nil => rfl
+  | cons c cs ih =>
+    rw [runCalls_cons, runCall_refused c sr hst (hc c (by simp))]
+    exact ih (fun d hd => hc d (by simp [hd]))
+
+/-- the loop of `_evaluate_aborted_state` in words -/
+theorem verdict_spec (b n : Bool) (a : Option Reason) :
+    verdict b n a = if a = some .requested then some .requested
+      else if b then some .blocked else if n then some .notShared else none := by
+  cases b <;> cases n <;> rcases a with _ | a <;> (try cases a) <;> decide
+
+theorem isLocked_filter_self (fs : List Flight) (k : Nat) : isLocked (fs.filter (fun g => g.k ≠ k)) k = false := by
+  simp only [isLocked, flightOf, Option.isSome_eq_false_iff, Option.isNone_iff_eq_none, List.find?_eq_none]
+  intro g hg
+  simpa using (List.mem_filter.1 hg).2
+
+/-- … and not even a cycle while the job of an earlier one is still waiting for a state lock (the
+management task starts no other job meanwhile) -/
+theorem busy_cycle_noop (s : S) (h : jobWaiting s.flights = true) : step s .cycle = (s, .busy) := by
+  simp [step, h]
+
+
+theorem cycle_xs (s : S) (hflag : s.sharesChanged = true) (hjob : jobWaiting s.flights = false) :
+    (step s .cycle).1.xs = reconcileFrom s.cfg s.sh s.flights 0 s.xs := by
+  simp [step, hjob, hflag, reconcileL]
+
+theorem cycle_flights (s : S) (hflag : s.sharesChanged = true) (hjob : jobWaiting s.flights = false) :
+    (step s .cycle).1.flights = (reconcileL s.cfg s.sh s.flights s.xs).2 := by
+  simp [step, hjob, hflag]
+
+/-- a cycle that meets the held lock of upload `k`: the upload as the cycle leaves it, the call it
+may have left waiting -/
+theorem cycle_locked (s : S) (hflag : s.sharesChanged = true) (hjob : jobWaiting s.flights = false)
+    (k : Nat) (x : Xfer) (f : Flight) (hk : s.xs[k]? = some x) (hf : flightOf s.flights k = some f) :
+    (step s .cycle).1.xs[k]? = some (cycleOne s.cfg s.sh s.flights k x).1 ∧
+    flightOf (step s .cycle).1.flights k = some
+      { f with waiters := f.waiters ++ (cycleOne s.cfg s.sh s.flights k x).2.toList } := by
+  have hfk : f.k = k := by simpa [flightOf] using List.find?_some hf
+  constructor
+  · rw [cycle_xs s hflag hjob, getElem?_reconcileFrom, hk]; simp
+  · rw [cycle_flights s hflag hjob]
+    simp only [reconcileL]
+    rw [flightOf_map _ _ (fun f => by
+      split
+      · split <;> rfl
+      · rfl), hf]
+    simp only [Option.map_some, hfk, hk, Option.some.injEq]
+    cases (cycleOne s.cfg s.sh s.flights k x).2 <;> simp
+    cases f
+    simp_all
+
+/-- the release of upload `k`'s lock: the pending calls run one after the other -/
+theorem endCall_at (s : S) (k : Nat) (x : Xfer) (f : Flight) (hk : s.xs[k]? = some x)
+    (hf : flightOf s.flights k = some f) :
+    (step s (.endCall k)).1.xs[k]? = some (x.withSR (runCalls f.pendingCalls x.sr)) ∧
+    isLocked (step s (.endCall k)).1.flights k = false := by
+  have hlt : k < s.xs.length := (List.getElem?_eq_some_iff.1 hk).1
+  simp only [step, endOn, hf, hk]
+  refine ⟨?_, isLocked_filter_self _ k⟩
+  simp only [List.getElem?_set, hlt, if_true]
+
+/-- **A cycle that meets a held state lock, then the release of that lock**: the upload ends where
+the calls that were pending (the rest of the holder's method, the waiters) followed by the cycle's
+own call — if it decided on one — lead, starting from what the cycle left (the upload as it showed,
+with the reason the cycle may have written directly). -/
+theorem cycle_end_locked (s : S) (hflag : s.sharesChanged = true) (hjob : jobWaiting s.flights = false)
+    (k : Nat) (x : Xfer) (f : Flight) (hk : s.xs[k]? = some x) (hf : flightOf s.flights k = some f) :
+    (run s [.cycle, .endCall k]).xs[k]? =
+        some ((cycleOne s.cfg s.sh s.flights k x).1.withSR
+          (runCalls (f.pendingCalls ++ (cycleOne s.cfg s.sh s.flights k x).2.toList)
+            (cycleOne s.cfg s.sh s.flights k x).1.sr)) ∧
+      isLocked (run s [.cycle, .endCall k]).flights k = false := by
+  obtain ⟨hx1, hf1⟩ := cycle_locked s hflag hjob k x f hk hf
+  simp only [run, List.foldl_cons, List.foldl_nil]
+  obtain ⟨h1, h2⟩ := endCall_at _ k _ _ hx1 hf1
+  refine ⟨?_, h2⟩
+  rw [h1]
+  simp [Flight.pendingCalls, List.append_assoc]
+
+/-! ## what happens elsewhere while a lock is held -/
+
+theorem flightOf_addWaiter_ne (fs : List Flight) (k k' : Nat) (c : Call) (h : k' ≠ k) :
+    flightOf (addWaiter fs k' c) k = flightOf fs k := by
+  rw [addWaiter, flightOf_map _ _ (fun f => by split <;> rfl)]
+  cases hf : flightOf fs k with
+  | none => rfl
+  | some f =>
+    have hfk : f.k = k := by simpa [flightOf] using List.find?_some hf
+    have : f.k ≠ k' := fun h' => h (h'.symm.trans hfk)
+    simp [this]
+
+theorem flightOf_filter_ne (fs : List Flight) (k k' : Nat) (h : k' ≠ k) :
+    flightOf (fs.filter (fun g => g.k ≠ k')) k = flightOf fs k := by
+  simp only [flightOf, List.find?_filter]
+  congr 1
+  funext a
+  by_cases ha : a.k = k
+  · simp [ha]
+    exact fun h' => h h'.symm
+  · simp [ha]
+
+theorem flightOf_append_some (fs : List Flight) (g f : Flight) (k : Nat) (h : flightOf fs k = some f) :
+    flightOf (fs ++ [g]) k = some f := by
+  simp only [flightOf, List.find?_append] at h ⊢
+  rw [h]
+  rfl
+
+/-- **While upload `k`'s lock is held and the management job waits for it**, everything that does
+not call a state method of that upload — configuration changes, polls, scans, searches, calls on the
+other uploads (also suspended ones, also releases of other locks), further cycle requests (the task
+starts no job) — leaves the upload and its lock queue as they are. -/
+theorem leaves_step (s : S) (op : Op) (k : Nat) (x : Xfer) (f : Flight) (hk : s.xs[k]? = some x)
+    (hf : flightOf s.flights k = some f) (hw : f.waiters.any (·.job) = true) (hop : Op.leaves k op = true) :
+    (step s op).1.xs[k]? = some x ∧ flightOf (step s op).1.flights k = some f := by
+  have hfm : f ∈ s.flights := List.mem_of_find?_eq_some hf
+  have hjob : jobWaiting s.flights = true := List.any_eq_true.2 ⟨f, hfm, hw⟩
+  have hcall : ∀ (k' : Nat) (c : Call), k' ≠ k →
+      (callOn s.xs s.flights k' c).1.1[k]? = some x ∧ flightOf (callOn s.xs s.flights k' c).1.2 k = some f := by
+    intro k' c hkk
+    simp only [callOn]
+    split
+    · exact ⟨hk, by rw [flightOf_addWaiter_ne _ _ _ _ hkk]; exact hf⟩
+    · refine ⟨?_, hf⟩
+      simp only [modifyAt]
+      split
+      · exact hk
       · simp only [List.getElem?_set]
         simp [hkk, hk]
-  | share d disk => simp only [step]; split <;> exact hk
-  | unshare p => simp only [step]; split <;> exact hk
-  | setMode p m => simp only [step]; split <;> exact hk
-  | poll => simp only [step]; split <;> exact hk
-  | reload es disk => simp only [step]; split <;> exact hk
-  | _ => exact hk
+  cases op with
+  | cycle => rw [busy_cycle_noop s hjob]; exact ⟨hk, hf⟩
+  | meth k' m => exact hcall k' _ (by simpa [Op.leaves] using hop)
+  | userAbort k' => exact hcall k' _ (by simpa [Op.leaves] using hop)
+  | userQueue k' => exact hcall k' _ (by simpa [Op.leaves] using hop)
+  | beginCall k' c ph =>
+    have hkk : k' ≠ k := by simpa [Op.leaves] using hop
+    have hset : ∀ z, (s.xs.set k' z)[k]? = some x := by
+      intro z
+      simp only [List.getElem?_set]
+      simp [hkk, hk]
+    simp only [step, beginOn]
+    split
+    · exact hcall k' c hkk
+    · split
+      · exact ⟨hk, hf⟩
+      · split
+        · exact ⟨hk, hf⟩
+        · split
+          · split
+            · exact ⟨hset _, flightOf_append_some _ _ _ _ hf⟩
+            · exact ⟨hset _, hf⟩
+          · exact ⟨hset _, flightOf_append_some _ _ _ _ hf⟩
+  | endCall k' =>
+    have hkk : k' ≠ k := by simpa [Op.leaves] using hop
+    simp only [step, endOn]
+    split
+    · refine ⟨?_, by rw [flightOf_filter_ne _ _ _ hkk]; exact hf⟩
+      simp only [List.getElem?_set]
+      simp [hkk, hk]
+    · exact ⟨hk, hf⟩
+  | queueReq u p => simp [Op.leaves] at hop
+  | xferReq u p => simp [Op.leaves] at hop
+  | share d disk => simp only [step]; split <;> exact ⟨hk, hf⟩
+  | unshare p => simp only [step]; split <;> exact ⟨hk, hf⟩
+  | setMode p m => simp only [step]; split <;> exact ⟨hk, hf⟩
+  | poll => simp only [step]; split <;> exact ⟨hk, hf⟩
+  | reload es disk => simp only [step]; split <;> exact ⟨hk, hf⟩
+  | _ => exact ⟨hk, hf⟩
+
+theorem leaves_run (ops : List Op) (s : S) (k : Nat) (x : Xfer) (f : Flight) (hk : s.xs[k]? = some x)
+    (hf : flightOf s.flights k = some f) (hw : f.waiters.any (·.job) = true)
+    (hops : ∀ op ∈ ops, Op.leaves k op = true) :
+    (run s ops).xs[k]? = some x ∧ flightOf (run s ops).flights k = some f := by
+  induction ops generalizing s with
+  | nil => exact ⟨hk, hf⟩
+  | cons op ops ih =>
+    simp only [run, List.foldl_cons]
+    obtain ⟨h1, h2⟩ := leaves_step s op k x f hk hf hw (hops op (by simp))
+    exact ih _ h1 h2 (fun o ho => hops o (by simp [ho]))
+
+theorem run_append (s : S) (a b : List Op) : run s (a ++ b) = run (run s a) b := by
+  simp [run, List.foldl_append]
+
+/-- what the cycle decides for an upload some condition applies to, by the state it shows -/
+theorem cycleAct_of_verdict (b n : Bool) (st : St) (a : Option Reason) (r : Reason) (hv : verdict b n a = some r) :
+    cycleAct b n (st, a) =
+      if st = .complete ∨ st = .failed then .none else if st = .aborted then .assign r else .call .abort (some r) := by
+  cases st <;> simp [cycleAct, hv, skipStates]
 
 /-! ## reachable states: the configured directories are the shared ones -/
 
@@ -616,8 +990,11 @@ theorem wf_step (s : S) (op : Op) (h : WF s) : WF (step s op).1 := by
       have := h.dirs d0 hd0
       split <;> exact this
     · exact h.dirs
-  | cycle => simp only [step]; split <;> exact h.dirs
+  | cycle => simp only [step]; repeat' split
+             all_goals exact h.dirs
   | poll => simp only [step]; split <;> exact h.dirs
+  | beginCall k c ph => exact h.dirs
+  | endCall k => exact h.dirs
   | reload es disk =>
     simp only [step]
     split
